@@ -12,25 +12,26 @@
                      of the proxied object, from the destination (its owner at that point, C32/Spec.v), for the
                      proxy's interface: changed sets, invalidated clears; uncached names hold nothing.
    caught_up x       the caching task has failed or finds its update stream empty.
-   Known_C31         w_lost (cw (crun ..)) = true: the release_buffered class of C32 (the only class of C32 that
-                     can occur here: PropertiesChanged never looks like NameOwnerChanged). *)
+   bus_history       C32/Spec.v (stamped senders, sequential lookup, driver never an owner; its fourth clause holds for
+                     every history here: PropertiesChanged never looks like NameOwnerChanged).
+   The model follows /repo as repaired by 902c9069: the class once inherited from C32 is gone, full strength. *)
 From Coq Require Import List NArith Bool.
 Import ListNotations.
 From ZV Require Import Base.Bytes C32.Model C32.Spec C31.Model C31.Spec C31.Proofs C31.Streams C31.Witness.
 Local Open Scope N_scope.
 
-(* For every bus history, every arrival order of the GetAll reply among the change signals, and EVERY schedule
-   (outside C32's release class): nothing is exposed before the cache is ready; whenever the caching task has
-   caught up, each cached value is exactly what the messages received so far imply in receive order; the cache
-   is reported ready only after the snapshot was received. *)
-Theorem C31_cache_partial : forall (pc : pcfg) (h : list wmsg) (sched : list caction),
-  bus_history (scfg pc) h = true -> ~ Known_C31 pc h sched ->
+(* For every bus history, every arrival order of the GetAll reply among the change signals, and EVERY schedule:
+   nothing is exposed before the cache is ready; whenever the caching task has caught up, each cached value is
+   exactly what the messages received so far imply in receive order; the cache is reported ready only after the
+   snapshot was received. *)
+Theorem C31_cache : forall (pc : pcfg) (h : list wmsg) (sched : list caction),
+  bus_history (scfg pc) h = true ->
   let x := crun pc h sched in
   (c_ready x <> Some true -> forall p, cached x p = None) /\
   (caught_up x -> forall p, cached x p = spec_cache pc (received x h) p) /\
   (c_ready x = Some true -> spec_ready pc (received x h) = Some true).
-Proof. exact cache_partial. Qed.
-Print Assumptions C31_cache_partial.
+Proof. exact cache_full. Qed.
+Print Assumptions C31_cache.
 
 (* A property marked uncached never has a cached value: every history, every schedule, no hypothesis. *)
 Theorem C31_uncached_ignored : forall (pc : pcfg) (h : list wmsg) (sched : list caction) (p : N),
@@ -68,33 +69,22 @@ Print Assumptions C31_stream_reports_cached.
 
 (* non-vacuity: an update before the snapshot (discarded), the snapshot with an uncached name, set + invalidate,
    another interface, a stranger, an ownership change, the new and the former owner *)
-Theorem C31_partial_nonvacuous :
+Theorem C31_nonvacuous :
   bus_history (scfg pc_w) h_clean = true /\
   let x := crun pc_w h_clean sched_clean in
-  ~ Known_C31 pc_w h_clean sched_clean /\ caught_up x /\ received x h_clean = h_clean /\ c_ready x = Some true /\
+  caught_up x /\ received x h_clean = h_clean /\ c_ready x = Some true /\
   map (cached x) [0; 1; 2; 3] = [Some 7; None; Some 4; None] /\
   map (spec_cache pc_w h_clean) [0; 1; 2; 3] = [Some 7; None; Some 4; None] /\
   c_seen x = [(0, Some 7)].
 Proof. exact clean_example. Qed.
-Print Assumptions C31_partial_nonvacuous.
+Print Assumptions C31_nonvacuous.
 
-(* known finding (C32's release_buffered class seen through the cache): after the dropped release notification
-   the former owner's update is still applied: P0 = 7 where the received history implies 5 *)
-Theorem C31_owner_release_buffered_refuted :
+(* the witness of the repaired finding (C32's release class seen through the cache) is a bus history and now runs
+   as specified: P0 = 5, the former owner's update (7) is not applied *)
+Theorem C31_repaired_history :
   bus_history (scfg pc_w) h_release = true /\
   let x := crun pc_w h_release sched_release in
-  w_lost (cw x) = true /\ caught_up x /\ received x h_release = h_release /\
-  cached x 0 = Some 7 /\ spec_cache pc_w h_release 0 = Some 5.
-Proof. exact owner_release_buffered_refuted. Qed.
-Print Assumptions C31_owner_release_buffered_refuted.
-
-(* hence the statement for ALL bus histories and schedules (Definition C31_full_statement in C31/Witness.v,
-   written out here) is false on this tree *)
-Theorem C31_full_statement_refuted :
-  ~ (forall (pc : pcfg) (h : list wmsg) (sched : list caction), bus_history (scfg pc) h = true ->
-       let x := crun pc h sched in
-       (c_ready x <> Some true -> forall p, cached x p = None) /\
-       (caught_up x -> forall p, cached x p = spec_cache pc (received x h) p) /\
-       (c_ready x = Some true -> spec_ready pc (received x h) = Some true)).
-Proof. exact full_statement_refuted. Qed.
-Print Assumptions C31_full_statement_refuted.
+  caught_up x /\ received x h_release = h_release /\
+  cached x 0 = Some 5 /\ spec_cache pc_w h_release 0 = Some 5.
+Proof. exact repaired_history. Qed.
+Print Assumptions C31_repaired_history.
